@@ -295,6 +295,8 @@ fn run_graph(tr: &mut Trace, sc: &Script, proj: &str, rep: u64, pools: &Pools, o
     tr.reset(&sc.sid)?;
     let mut db = Db::new();
     let mut g = Graph::default();
+    #[allow(unused_assignments)]
+    let mut lts: Vec<(String, String)> = Vec::new();
     let mut labels_used: BTreeSet<String> = BTreeSet::new();
     let mut types_used: BTreeSet<String> = BTreeSet::new();
     for step in &sc.steps {
@@ -335,7 +337,7 @@ fn run_graph(tr: &mut Trace, sc: &Script, proj: &str, rep: u64, pools: &Pools, o
 
     // ---------------------------------------------------------------- projections asked through CALL
     // (label, type) pairs for wcc / pageRank / cdlp / lcc
-    let mut lts: Vec<(String, String)> = vec![(String::new(), String::new())];
+    lts = vec![(String::new(), String::new())];
     if proj == "full" {
         let mut ls: Vec<String> = vec![String::new()];
         ls.extend(labels_used.iter().cloned());
@@ -596,6 +598,28 @@ fn run_graph(tr: &mut Trace, sc: &Script, proj: &str, rep: u64, pools: &Pools, o
             }
             tr.emit(json!({"ev": "Rep", "runs": runs}))?;
         }
+    }
+    // ---------------------------------------------------------------- after compaction: leapfrog triangle count, CALL again
+    if want("Leap") {
+        // no relationship is ever deleted here, so the frozen tier holds exactly the live relationships
+        db.store.compact_adjacency();
+        let lf = samyama::query::executor::leapfrog::count_triangles_leapfrog(&db.store);
+        let mut runs = vec![json!({"via": "leapfrog", "kind": "leap", "count": lf})];
+        runs.push(match db.call("CALL algo.triangleCount() YIELD triangles") {
+            Ok(b) if b.records.len() == 1 => json!({"via": "call-compacted", "kind": "tri", "count": int_val(b.records[0].get("triangles")).unwrap_or(-1)}),
+            _ => json!({"via": "call-compacted", "kind": "tri", "count": -1}),
+        });
+        tr.emit(json!({"ev": "Leap", "runs": runs}))?;
+        let mut runs = Vec::new();
+        for (l, t) in &lts {
+            let q = format!("CALL algo.wcc({}) YIELD node, componentId", lt_args(l, t));
+            let mut r = call_comp(&db, &q, "wcc", l, t);
+            if r["via"] == "call" {
+                r["via"] = json!("call-compacted");
+            }
+            runs.push(r);
+        }
+        tr.emit(json!({"ev": "Comp", "runs": runs}))?;
     }
     Ok(())
 }
